@@ -913,6 +913,37 @@ def rewrite_body(body, ctx, cname):
                     changed = True
                     break
 
+    # ---- R7local: local references  'T &x = e;'  ->  'T *x = &(e);'  and x -> (*x) afterwards
+    local_refs = set()
+    i = 0
+    while i < len(toks):
+        t = toks[i]
+        if t.kind == 'op' and t.text == '&':
+            p = sig(toks, i, -1)
+            n = sig(toks, i, 1)
+            if (p is not None and n is not None and toks[p].kind == 'id' and toks[n].kind == 'id'
+                    and (toks[p].text in typenames or toks[p].text in ctx.tm.classes)):
+                n2 = sig(toks, n, 1)
+                if n2 is not None and toks[n2].text == '=':
+                    # find end of initialiser
+                    e = n2 + 1
+                    depth = 0
+                    while e < len(toks) and not (toks[e].text == ';' and depth == 0):
+                        if toks[e].text in '([{':
+                            depth += 1
+                        elif toks[e].text in ')]}':
+                            depth -= 1
+                        e += 1
+                    init = untokenize(toks[n2 + 1:e]).strip()
+                    name = toks[n].text
+                    t.text = '*'
+                    toks[n].text = 'VERIF_LOCALREF_' + name
+                    new_init = tokenize(' &(' + init + ')')
+                    toks = toks[:n2 + 1] + new_init + toks[e:]
+                    local_refs.add(name)
+                    ctx.fire('R7local')
+        i += 1
+
     # ---- R6/R7 members, sibling calls, reference params
     shadow = set(ctx.params) | set(ctx.locals)
     # detect undeclared shadowing: "<typename> [*&]* name" where name is a member
@@ -983,9 +1014,13 @@ def rewrite_body(body, ctx, cname):
                     ctx.fire('R6member')
                     i += 1
                     continue
-                if t.text in ctx.refparams:
+                if t.text in ctx.refparams or t.text in local_refs:
                     out.append(Tok('id', '(*%s)' % t.text))
                     ctx.fire('R7')
+                    i += 1
+                    continue
+                if t.text.startswith('VERIF_LOCALREF_'):
+                    out.append(Tok('id', t.text[len('VERIF_LOCALREF_'):]))
                     i += 1
                     continue
                 if t.text == 'this':
